@@ -12,7 +12,7 @@ def main(path):
     if kind == 'proof-counterexample':
         from pyvc import propcheck, runtime
         cm = importlib.import_module(rec['contract_module'])
-        c = [k for k in cm.CONTRACTS if k.qualname == rec['qualname'] and k.module == rec['module']][0]
+        c = [k for k in cm.CONTRACTS if k.name == rec.get('name', rec['qualname']) and k.module == rec['module']][0]
         r = propcheck.native_replay(rec['contract_module'], c, rec['clause'], rec['inputs'])
         print(json.dumps(r, indent=1))
         if r.get('pre') and r.get('failed'):
